@@ -1242,6 +1242,26 @@ def stream_corpus(ctx, batch):
         check_tree(ctx, batch, rc, "corpus", rc["kind"] == "parse", sub_elements=50, r=r)
 
 
+def stream_table(ctx, batch):
+    """exhaustive over the generated tables: every string class x every parent kind, under every formatter of both
+    registries (render_checks runs all of them), both flavours — so a changed PREFIX/SUFFIX/registry entry that breaks a
+    `decide` in Props/C05.lean also produces a concrete failing input here (the oracle's facts are hard-coded)"""
+    n = 0
+    for xml in (False, True):
+        for cls in CLASSES:
+            for parent in ("p", "script", "style", "pre", "rt", "br"):
+                for text in ("a<b&c>\"'", " \n ", "x"):
+                    if parent in P_RAW and cls not in TEXT_CLASSES and cls != "PreformattedString":
+                        pass
+                    kids = [["T", "ctor", parent, None, [["k", "v<&>\"'"]], parent == "br",
+                             [["S", cls, text]]], ["T", "ctor", parent, None, [], True, []]]
+                    check_tree(ctx, batch, {"kind": "api", "xml": xml, "kids": kids, "ops": []}, "table", False,
+                               sub_elements=2, r=ctx.rng("table", n))
+                    n += 1
+    ctx.exhaustive_parts.append(f"{n} trees: every string class x parent in (p, script, style, pre, rt, br) x 3 texts x both flavours, "
+                                "each under every formatter of its registry")
+
+
 def run(ctx: Ctx):
     warnings.simplefilter("ignore")
     E()
@@ -1266,22 +1286,23 @@ def run(ctx: Ctx):
     batch = Batch(ctx)
     stream_corpus(ctx, batch)
     stream_small(ctx, batch)
+    stream_table(ctx, batch)
     # (i) parsed documents
-    n = ctx.n(700, 9000)
+    n = ctx.n(2000, 18000)
     for i in range(n):
         r = ctx.rng("parsed", i)
         check_tree(ctx, batch, {"kind": "parse", "markup": gen_markup(r)}, "parsed", True, r=r)
-    n = ctx.n(250, 3000)
+    n = ctx.n(700, 6000)
     for i in range(n):
         r = ctx.rng("malformed", i)
         check_tree(ctx, batch, {"kind": "parse", "markup": gen_markup(r, malformed=True)}, "malformed", True, r=r)
     # (ii) API construction / edit histories, representable content
-    n = ctx.n(900, 12000)
+    n = ctx.n(2500, 24000)
     for i in range(n):
         r = ctx.rng("api", i)
         check_tree(ctx, batch, gen_api_recipe(r, 0.0), "api", False, r=r)
     # (iii) content outside Representable: rendered (pure correspondence), re-parse outcome recorded
-    n = ctx.n(300, 4000)
+    n = ctx.n(800, 8000)
     for i in range(n):
         r = ctx.rng("hostile", i)
         check_tree(ctx, batch, gen_api_recipe(r, 0.25), "hostile", False, r=r)
